@@ -83,6 +83,33 @@ def adapter_instance(I, repo, a):
     return obj
 
 
+def decode_callable(I, repo, a, obj):
+    """the decode step of chain entry ``a`` as a function of what the construct below hands it: ``_decode`` of an adapter class; for a
+    reader class (its own ``_parse``, described as decoding Bytes(n)) ``_parse`` on a model stream that holds exactly these bytes"""
+    from collections import OrderedDict
+    from ..shapes import Const, ShapeError
+    raw = a.get("raw_attrs") or {}
+    wp = raw.get("__width_param__")
+    if wp is None:
+        return lambda arg: I.call(I.getattr(obj, "_decode"), [arg, Const(None), Const(None)], {})
+    from ..layout import reader_parse
+    mod = repo.modules.get(a.get("clsmod"))
+    cls = a.get("clsnode")
+
+    def run(arg):
+        if not (isinstance(arg, Const) and isinstance(arg.v, (bytes, bytearray))):
+            raise ShapeError(f"reader class {a.get('cls')} is handed {arg!r:.40}, not the field's bytes")
+        kw = OrderedDict((k, Const(v)) for k, v in raw.items() if not k.startswith("__") and isinstance(v, (int, float, str, bool, bytes, type(None))))
+        kw[wp] = Const(len(arg.v))
+        st, out, reads, consumed = reader_parse(I, mod, cls, kw, bytes(arg.v))
+        if st == "raised":
+            raise out
+        if consumed != len(arg.v):
+            raise ShapeError(f"reader class {a.get('cls')} consumes {consumed} of the {len(arg.v)} bytes of its field")
+        return out
+    return run
+
+
 def base_value(below, base, base_args, data):
     """what construct's own constructs under an adapter hand to its `_decode` for the field bytes ``data`` (model of Bytes,
     PaddedString, GreedyBytes in a window, NullStripped, StringEncoded); None when something else is in between"""
@@ -165,7 +192,7 @@ def adapter_values(chk, repo, L, rule, keys):
                 arg = Obj("Container", {k: Const(v) for k, v in raw.items()})
                 arg.fields["__getitem__"] = Fn("py", impl=lambda I_, a_, k_, _o=arg: _o.fields[a_[0].v], name="__getitem__")
             try:
-                out = I.call(I.getattr(obj, "_decode"), [arg, Const(None), Const(None)], {})
+                out = decode_callable(I, repo, a, obj)(arg)
                 got = from_shape(out)
             except _Raise as e:
                 got = f"<raises {e.what[:50]}>"
